@@ -30,8 +30,13 @@ def run(ctx):
 
     # ---- Y1 -----------------------------------------------------------------------
     ctx.rule("Y1", "registration and lookup use the same namespace, key and suffix; absent names are rejected first")
+    gl_names = {t.id for a in walk_no_nested(ac.node) if isinstance(a, ast.Assign) and isinstance(a.value, ast.Call) and call_name(a.value) == "globals"
+                and not a.value.args for t in a.targets if isinstance(t, ast.Name)}
+
+    def is_globals(e):
+        return (isinstance(e, ast.Call) and call_name(e) == "globals") or (isinstance(e, ast.Name) and e.id in gl_names)
     stores = [st for st in walk_no_nested(ac.node) if isinstance(st, ast.Assign) and any(
-        isinstance(t, ast.Subscript) and isinstance(t.value, ast.Call) and call_name(t.value) == "globals" for t in st.targets)]
+        isinstance(t, ast.Subscript) and is_globals(t.value) for t in st.targets)]
     if not stores:
         ctx.violation("Y1", ac, "no-registration", "add_commands does not store into globals()", node=ac.node,
                       witness="a registered command stays unknown to the parser")
